@@ -87,7 +87,7 @@ PROPS.update({
 _GRAPH_TRUST = ['assumed contract of the built-in list (append/remove/in/index/clear; abstract list theory T1, validated against CPython lists in the thorough tier)',
                 'graph lemma axioms D1-D5, G1 (transcriptions of lemmas/Graph.lean, proved in Lean 4 + Mathlib; transcription trusted, validated on all relations over <= 4 nodes)',
                 'history induction (meta-argument): every public mutator preserves Inv on both exits, constructors establish it; closed by the encapsulation scan']
-_GRAPH_B = ['WBS.remove_all, _TaskList.remove_all, WBS.__init__ with initial tasks, Task.__init__ with dependency arguments, operators with a single task or a non-list iterable as right operand - bounded stand-in only (random histories of public calls)',
+_GRAPH_B = ['WBS.__init__ with initial tasks, Task.__init__ with dependency arguments, operators with a single task or a non-list iterable as right operand - bounded stand-in only (random histories of public calls)',
             'Task.children.setter: a list that names a task twice, and the claim that its attach loop cannot reject once the checks have passed (C15; needs the meaning of the opaque id-clash predicate) - bounded stand-in only',
             'assumed by contract: _to_list (type dispatch of the setters\' argument), the correspondence between the opaque id-clash predicate used in the mutator units and the proved post-condition of _has_id_intersection (same sentence, two formulations), '
             'the read-only list view _ImmutableTaskList (delegates in / iteration / len to the wrapped list). The closure helpers are no longer assumed: Task.all_children / __get_all_children / its generator, '
@@ -102,7 +102,7 @@ _GRAPH_EXPL = ('contract-based deductive verification of the core mutators: Task
                'and WBS.remove, and the operators t // others, t << others, t >> others (right operand a list of tasks) are proved against these contracts. The list facades are proved against those contracts (callers see only the callee contract): _ChildrenList.append / insert / move / sort / reorder and _PredecessorsList / _SuccessorsList append / remove, '
                'as are the ownership walks Task._attach / _detach, the list-object setter __set_children and the closure helpers the mutators call (recursive generators executed with a ghost output list; '
                'all_children is proved to return exactly the depth-first listing dfs(t) = concat over the children c in list order of [c] + dfs(c), every strict descendant once - which is WBS.tasks (C05); '
-               'termination by measures whose existence in finite acyclic graphs is Lean lemma K1). Task.__init__ (without dependency arguments) is proved to establish Inv for the new object - the unallocated part of the heap is modelled as blank objects nobody refers to - and to hand parent / children to the setters. WBS.__init__ (without initial tasks) is proved to create a hidden root with the reserved id that the new WBS owns (the constructor call on the reserved id is used by assumed contract). Level `other`: remove_all is covered by the bounded native '
+               'termination by measures whose existence in finite acyclic graphs is Lean lemma K1). Task.__init__ (without dependency arguments) is proved to establish Inv for the new object - the unallocated part of the heap is modelled as blank objects nobody refers to - and to hand parent / children to the setters. WBS.__init__ (without initial tasks) is proved to create a hidden root with the reserved id that the new WBS owns (the constructor call on the reserved id is used by assumed contract). Level `other`: what is listed below is covered by the bounded native '
                'stand-in (random histories over task objects sharing ids, two WBSs, stale list facades, constructors). ')
 PROPS.update({
     'C01': P('other', _GRAPH_EXPL, _GRAPH_B, _GRAPH_TRUST, design_ref='8/C01'),
@@ -122,8 +122,10 @@ PROPS.update({
              'suffix tests, slices, dynamically typed comparisons) and proved to return True exactly if every filter holds under the longest-matching-suffix reading of the property - for all keyword strings (SMT string '
              'theory, opaque/reveal for the quantified invariant); __get_task_attribute is proved to return the value of every public attribute incl. the property-backed id, estimate, spent, parent_id and None when lacking. '
              'bulk __setattr__ is proved to set the attribute on exactly the listed tasks (plain attribute names). _ImmutableTaskList.__call__ itself is proved to return, on every branch, exactly the listed tasks that satisfy the '
-             'callable key / every keyword filter, without changing the list, and to refuse only a key that is neither None nor callable. Level `other`: remove_all is covered by the bounded stand-in only.',
-             ['_TaskList.remove_all', 'WBS.remove_all'],
+             'callable key / every keyword filter, without changing the list, and to refuse only a key that is neither None nor callable. remove_all is proved in both forms: _TaskList.remove_all on a children list (children afterwards = the children that were not selected, order kept; selected tasks detached; '
+             'the selection is returned) and WBS.remove_all (members afterwards = the old members that are neither selected nor below a selected task - a recursively defined predicate over the selection - through the proved WBS.__remove). '
+             'Level `other`: remove_all on a dependency list, and the claim that a removal is never refused (C15 of the children setter\'s attach loop), are covered by the bounded stand-in only.',
+             ['_TaskList.remove_all on a dependency list'],
              ['library contracts (L): rich comparisons, `in` and re.search on dynamically typed values are uninterpreted predicates', 'SMT string theory of z3/cvc5',
               'semantics of a list comprehension with a condition (the elements that satisfy it, in order) is the assumed contract of the built-in (T1)'], design_ref='8/C18'),
     'C20': P('other', 'contract-based deductive verification of utils.py with an abstract text theory (len, visible length, concatenation, spaces): colored_text has visible width max(len(text), width); '
